@@ -19,6 +19,8 @@ def deck(m):
     L += [m.get("unit", "METRIC"), "TABDIMS", " %d %d /" % (ntsfun, ntpvt), "EQLDIMS", " %d /" % neql, "REGDIMS", " 3 1 0 3 /"]
     if has("THPRES"):
         L += ["EQLOPTS", " THPRES /"]
+    if has("RPT"):
+        L += ["RPTSOL", " RESTART=2 FIP=1 /"]
     if has("AQUCT"):
         L += ["AQUDIMS", " 1* 1* 1* 1* 1 10 /"]
     if has("TRACER"):
@@ -91,6 +93,8 @@ def deck(m):
     if has("SUMMARY_ALL"):
         L += ["ALL", "WBHP", "/", "GOPR", "/", "BPR", " 1 1 1 /", "/", "ROIP", " 1 /"]
     L.append("SCHEDULE")
+    if has("RPT"):
+        L += ["RPTRST", " BASIC=3 FREQ=2 DEN /", "RPTSCHED", " FIP=2 WELLS=1 /"]
     if has("VFP"):
         L += ["VFPPROD", " 1 2000 OIL WCT GOR THP ' ' 1* BHP /", " 100 500 /", " 10 50 /", " 0.1 0.5 /", " 100 200 /", " 0 /",
               " 1 1 1 1 100 120 /", " 1 2 1 1 110 130 /", " 2 1 1 1 105 125 /", " 2 2 1 1 115 135 /",
